@@ -611,7 +611,8 @@ class BrownianInterval(brownian_base.BaseBrownian, _Interval):
         if ta > tb:
             raise RuntimeError(f"Query times ta={ta:.3f} and tb={tb:.3f} must respect ta <= tb.")
 
-        if ta == tb:
+        # Compare at the resolution of the tree: two times which round to the same point delimit an empty interval.
+        if self._round(ta) == self._round(tb):
             W = torch.zeros(self._size, dtype=self._dtype, device=self._device)
             H = None
             A = None
